@@ -62,12 +62,13 @@ def styleOf : String → Except String Style
   | "oblique" => pure .oblique | "manhattan" => pure .manhattan | "tree" => pure .tree
   | s => throw s!"unknown style {s}"
 
-/-- on a tie of the closest snap: what each of the four guards would have returned -/
+/-- on a tie of the closest snap: what each of the guards whose side faces the source would have returned (a float `atan2`
+may pick either neighbour of the corner; the sides beyond the centre are not alternatives: `closest_snap_faces_source`) -/
 def closestAlts (b : Box) (source : V2) : List V2 :=
   [Side.right, .bottom, .top, .left].filterMap fun s =>
     let l := sideLine b s
     match lineIntersect b.center source l.1 l.2 with
-    | .ok q => some q
+    | .ok q => if 0 < (q - b.center).dot (source - b.center) then some q else none
     | .error _ => none
 
 /-- the source the closest snap is run with, if `vectorSnap … oblique` ends there -/
@@ -106,10 +107,11 @@ def endInfo (st : Style) (b : Box) (pts : List V2) : List String × Bool × Bool
         let tie := angleTie (e - nx) (q - nx)
         let z := (if e - nx = ⟨0, 0⟩ then ["obl:zero-direction"] else []) ++ (if q - nx = ⟨0, 0⟩ then ["obl:snapped-onto-source"] else [])
         if decMid (e - nx) (q - nx) then
-          -- a two-point edge re-snaps with `source = point`, i.e. through `__vector_snap_closest`: its atan2-based side
-          -- choice is a declared tie when the neighbour lies on a diagonal of the box (any side intersection accepted)
-          let tieC := match rest.head? with | some _ => false | none => decide (closestTie b nx ∧ nx ≠ b.center)
-          ((match rest.head? with | some _ => "obl:resnap:third-point" | none => "obl:resnap:two-points") :: z, tie || tieC, false)
+          -- a two-point edge re-snaps with `source = point`, i.e. through `__vector_snap_closest`: when the neighbour lies on
+          -- a diagonal of the box its atan2-based side choice may go to either neighbouring side; both meet in the corner
+          -- facing the neighbour (`closest_snap_faces_source`; since /repo `alpha <= angle` on all four diagonals), so this is
+          -- compared like any other input
+          ((match rest.head? with | some _ => "obl:resnap:third-point" | none => "obl:resnap:two-points") :: z, tie, false)
         else ("obl:keep" :: z, tie, false)
     | .manhattan =>
       let axis := closestaxis (e - nx)
